@@ -203,6 +203,16 @@ pub fn run(rep: &mut Rep) {
             roots[..32].copy_from_slice(&roots1);
         }
         m.crash("verify_with_roots(roots)", &format!("root-list-len%32={}", len % 32), &v_roots(&c, &req, &roots), json!({"roots_len": len}));
+        // the same lengths without the root (a decoder that stops at the first match never reaches the tail
+        // otherwise) and with the root as the last whole element
+        let absent = rand_bytes(&mut rng, len);
+        m.crash("verify_with_roots(roots)", &format!("root-list-without-root-len%32={}", len % 32), &v_roots(&c, &req, &absent), json!({"roots_len": len, "root": "absent"}));
+        if len >= 32 {
+            let mut last = rand_bytes(&mut rng, len);
+            let at = (len / 32 - 1) * 32;
+            last[at..at + 32].copy_from_slice(&roots1);
+            m.crash("verify_with_roots(roots)", &format!("root-list-root-last-len%32={}", len % 32), &v_roots(&c, &req, &last), json!({"roots_len": len, "root": "last whole element"}));
+        }
     }
     for fill in [vec![0xffu8; 64], big_to_le32(&p).to_vec(), vec![0xffu8; 31]] {
         m.crash("verify_with_roots(roots)", "root-list-noncanonical", &v_roots(&c, &req, &fill), json!({"roots": hex(&fill)}));
